@@ -8,11 +8,16 @@ export CARGO_NET_OFFLINE=true
 T="--target-dir $wt/target"
 git apply "$m/patch.diff" || { echo "APPLY-FAIL"; exit 1; }
 r1=$(cargo test --offline --lib --no-default-features $T 2>&1 | grep "test result" | head -1)
+# heartbeats::tests::fire_after_activity asserts wall-clock durations and fails now and then on a loaded machine, patch or no patch: one retry
+case "$r1" in *"0 failed"*) ;; *) r1=$(cargo test --offline --lib --no-default-features $T 2>&1 | grep "test result" | head -1);; esac
+# a change that matters only without debug assertions is demonstrated in the release profile (meta.json: "release_only": true)
+REL=""
+if python3 -c "import json,sys; d=json.load(open('$m/meta.json')); sys.exit(0 if d.get('release_only') else 1)" 2>/dev/null; then REL="--release"; echo "release-only demonstration"; fi
 cat "$m/demo.rs" >> "$demo_into"
-r2=$(cargo test --offline --lib --no-default-features $T seeded_demo 2>&1 | grep "test result" | head -1)
+r2=$(cargo test --offline --lib --no-default-features $REL $T seeded_demo 2>&1 | grep "test result" | head -1)
 git checkout -q -- .
 cat "$m/demo.rs" >> "$demo_into"
-r3=$(cargo test --offline --lib --no-default-features $T seeded_demo 2>&1 | grep "test result" | head -1)
+r3=$(cargo test --offline --lib --no-default-features $REL $T seeded_demo 2>&1 | grep "test result" | head -1)
 git checkout -q -- .
 echo "with-patch suite: $r1"
 echo "with-patch demo : $r2"
